@@ -14,6 +14,8 @@ COMMON_NOTE = ("trusted: Coq 8.16.1 kernel incl. vm_compute (no native_compute; 
 ENGINES = {
     "coq-tree": ("coq/tree", "yield-passing model of walk.Plan + declarative specification"),
     "coq-builder": ("coq/builder", "cursor-machine model of builder.go + recursive-descent reference"),
+    "coq-api": ("coq/api", "small-step model of Plans.Start / the run goroutine / Wait, Status, Plan, Submit"),
+    "coq-validate": ("coq/validate", "transcription of workflow.Validate (BFS queue, shared key set), Defaults, Submit, validateStartState + declarative WF"),
 }
 
 # pid -> dict(engine, text, note, technique, design)
@@ -39,6 +41,31 @@ CHECKS = {
         technique="Coq proof (simulation by induction on parser fuel / call list, phase lemmas, monitor invariant) + differential correspondence",
         design="DESIGN.md section 6 C20, section 13"),
 }
+
+CHECKS["C12"] = dict(
+    engine="coq-api",
+    text="Coq theorems over the small-step Start/engine/API model for ALL interleavings of any number of callers: at most one execution "
+         "per plan, startMu mutual exclusion, no panic, restart rejected with the state unchanged, stale submission rejected, launch only "
+         "after a fresh validated read; refutation lemmas show the same model without the lock / waiter check executes twice and panics. "
+         "Correspondence (result classes, Status iterator results and per-plan execution counts of child-process histories and concurrent "
+         "Start bursts) kernel-checked with vm_compute on every run via a set-of-states simulation of the model plus a separate monitor.",
+    note="error classification by Go type, nonce-keyed call counting, gates, child-process isolation; not covered: recovery-started runs, "
+         "cosmosdb vault, store write failures (log.Fatal), Delete of an executing plan, Status with a non-positive interval, the exact "
+         "maxSubmit boundary (proved in the model, sampled >= 400 ms away)",
+    technique="Coq proof (inductive invariant over a labelled transition system; refutation by computation) + trace-acceptance correspondence",
+    design="DESIGN.md section 6 C12, section 13")
+CHECKS["C16"] = dict(
+    engine="coq-validate",
+    text="Coq theorems over the transcription of workflow.Validate / Defaults / Submit / validateStartState for ALL plans (incl. nil "
+         "elements): validate accepts exactly the declarative WF (queue invariant, fuel never runs out), rejected Submit leaves the store "
+         "unchanged, accepted Submit stores normalize(p) pristine with fresh pairwise-distinct v7 ids and a submit time (given an injective "
+         "v7 id supply), Start refuses non-check plugins in check groups and accepts freshly stored plans. Correspondence: mutants of valid "
+         "plans (56 mutation kinds, 15 store tamperings) through the real Validate / Submit / Plan / Start on a sqlite vault in child "
+         "processes, verdicts compared with WF first (any disagreement is a violation with that plan as replay), kernel-checked with vm_compute.",
+    note="uuid.NewV7 injectivity/version and the vault's Create verdict are premises; not covered: the same pointer used twice in a plan, "
+         "cosmosdb, concurrent Submits, what Create does on failure (C14)",
+    technique="Coq proof (queue invariant, permutation of key sets, state-passing walk) + differential correspondence against the spec",
+    design="DESIGN.md section 6 C16, section 13")
 
 PENDING_REASON = "check under construction in this session (see DESIGN.md section 12 build order); not yet claimed"
 
